@@ -113,7 +113,9 @@ def _follow_result(fb, body, local, depth=0):
             r = item["r"]
             d = item["d"]
             if r.get("k") == "discr":
-                out.extend(_follow_discr_local(fb, body, d["l"], ok_value=0))
+                # the success variant: Ok / Continue have discriminant 0, but Some has 1 (None = 0)
+                ty = str((body.get("locals") or [])[local] if local < len(body.get("locals") or []) else "")
+                out.extend(_follow_discr_local(fb, body, d["l"], ok_value=1 if re.match(r"(&(mut )?)?(std|core)::option::Option<", ty) else 0))
             elif r.get("k") in ("use", "ref", "cast") and not d.get("p"):
                 if d["l"] == 0:
                     out.append(("returned", bb))
@@ -642,3 +644,50 @@ def verbatim_source(body, op, depth=0):
     if inner is None:
         return None
     return (inner[0], inner[1] + proj)
+
+
+# ----------------------------------------------------------------------------------------------- closures of iterator chains
+def closure_context(fb, parent, closure_key):
+    """How a closure created in `parent` is used: ({leaves the closure's element parameter ranges over}, {leaves captured}).
+    The element source is the receiver of the adaptor call the closure is handed to (`xs.iter().map(|x| ..)` -> leaves of xs)."""
+    src, cap = set(), set()
+    for i, blk in enumerate(parent["blocks"]):
+        for st in blk["s"]:
+            r = st["r"]
+            if r.get("k") == "agg" and r.get("ak") == "closure" and r.get("closure") == closure_key:
+                for o in r.get("ops", []):
+                    cap |= operand_leaves(fb, parent, o)
+                cl = st["d"]["l"]
+                for c in fb.calls(parent):
+                    if any(a.get("k") in ("copy", "move") and a["pl"]["l"] == cl for a in c.args[1:]) and c.args:
+                        src |= {x for x in operand_leaves(fb, parent, c.args[0]) if x.startswith("arg")}
+    return src, cap
+
+
+def deep_aggregates(fb, body, adt_regex):
+    """aggregates of `body` and of the closures it creates (one level): [(owner body, statement)] in source-line order"""
+    out = [(body, s) for _, s in aggregates(body, adt_regex)]
+    for k, cb in fb.bodies.items():
+        if cb.get("kind") == "Closure" and cb.get("parent") == body["key"]:
+            out += [(cb, s) for _, s in aggregates(cb, adt_regex)]
+    out.sort(key=lambda x: x[1].get("ln") or 0)
+    return out
+
+
+def deep_leaves(fb, body, owner, op):
+    """operand_leaves of `op` in `owner`; when owner is a closure of `body`, its element parameter and its captures are rewritten
+    to what they stand for in `body` (`arg2.data` of `|block| ..` over `self.blocks.iter()` reads `arg1.blocks.data`)."""
+    lv = operand_leaves(fb, owner, op)
+    if owner is body:
+        return lv
+    src, cap = closure_context(fb, body, owner["key"])
+    out = set()
+    for x in lv:
+        m = re.match(r"arg(\d+)(.*)$", x)
+        if m and int(m.group(1)) >= 2 and src:
+            out |= {s_ + m.group(2) for s_ in src}
+        elif m and int(m.group(1)) == 1:
+            out |= cap or {x}
+        else:
+            out.add(x)
+    return out
